@@ -22,7 +22,7 @@ from ser import Ser, Unsupported
 from props import c03 as J
 
 LEAN_MODULE = "Optyx.Props.C17"
-EXTRA_MODULES = ["Optyx.Props.PinsC17"]   # transcription anchors (harness/source_pins.py)
+EXTRA_MODULES = ["Optyx.Props.PinsC17", "Optyx.Props.BuildTie"]   # transcription anchors (harness/source_pins.py)
 THEOREMS = [
     "Optyx.Props.Closures.closureTables_agree",
     "Optyx.Props.Closures.sanitizeShape_agrees",
@@ -35,6 +35,8 @@ THEOREMS = [
     "Optyx.Props.C17.hess_symmetric",
     "Optyx.Props.C17.compileHessian_entries",
     "Optyx.Props.C17.compileHessian_true_second_partial",
+    "Optyx.Props.BuildTie.compile_step",
+    "Optyx.Props.BuildTie.compileVec_step",
     "Optyx.Props.PinsC17.anchors",
 ]
 ASSUMPTIONS = [
